@@ -67,6 +67,11 @@ IKINDS = {
     "iin": ("in", A(M, "p"), CC),
     "ihas": ("has", CC, A(M, "p")),
     "inot_in": ("not", ("in", A(M, "p"), CC)),
+    # two concatenations (over two attributes of the same parent variable) in one condition
+    "iin_both": ("and", ("in", A(M, "p"), CC), ("in", A(M, "p"), ("cc", A(X, "t")))),
+    "iin_either": ("or", ("in", A(M, "p"), ("cc", A(X, "t"))), ("not", ("in", A(M, "p"), CC))),
+    # the parent variable selected next to the outer one: it is not restricted by the concatenation
+    "iin_selx": ("in", A(M, "p"), CC),
 }
 
 
@@ -118,7 +123,9 @@ def object_cases(tier, inst):
 
 def wspec_of(combo):
     if combo and combo[0] == "int":
-        rows = tuple((("p", i + 1), ("items", inner)) for i, inner in enumerate(combo[1:]))
+        # a second collection per parent (attribute t): the inner values shifted by one parent
+        inn = combo[1:]
+        rows = tuple((("p", i + 1), ("items", inner), ("t", inn[(i + 1) % len(inn)])) for i, inner in enumerate(inn))
         return (("E", "Item", tuple((("p", i),) for i in range(4))), ("P", "Item", rows))
     if combo and combo[0] == "intc":
         # the first parent fails the constraint (q == 2), the others alternate
@@ -151,6 +158,8 @@ def query_of(case):
         return ("Q", "an", "setof", (CC,), (), (VX,))
     if k == "iin_sel":
         return ("Q", "an", "setof", (M, CC), (IKINDS[k],), (VM, VX))
+    if k == "iin_selx":
+        return ("Q", "an", "setof", (M, X), (IKINDS[k],), (VM, VX))
     if k in IKINDS:
         return ("Q", "an", "entity", M, (IKINDS[k],), (VM, VX))
     if k == "value":
@@ -174,6 +183,8 @@ def run_case(case, inst):
             got = list(obj.evaluate())
             if k == "ivalue_setof":
                 got = [r[b.sel[q][0]] for r in got]
+            elif k == "iin_selx":
+                got = [(r[b.sel[q][0]], r[b.sel[q][1]]) for r in got]
             elif k == "iin_sel":
                 if any(list(r[b.sel[q][1]]) != combined for r in got):
                     got = ("EXC", "WrongConcatenatedValue", repr([r[b.sel[q][1]] for r in got])[:120])
@@ -184,7 +195,27 @@ def run_case(case, inst):
         if k in ("value", "ivalue", "ivalue_setof"):
             return got, combined, None
         neg = "not" in k or k.startswith("inv")
-        if k in IKINDS:
+        if k in ("iin_both", "iin_either", "iin_selx"):
+            combined_t = []
+            for p in world["P"]:
+                combined_t.extend(p.t if isinstance(p.t, tuple) else [p.t])
+            if k == "iin_both":
+                exp = [o for o in world["E"] if o.p in combined and o.p in combined_t]
+            elif k == "iin_either":
+                exp = [o for o in world["E"] if o.p in combined_t or o.p not in combined]
+            else:
+                exp = [(o, p) for o in world["E"] if o.p in combined for p in world["P"]]
+                if not is_exc(got):
+                    bad = [r for r in got if not any(r[1] is p for p in world["P"])]
+                    if bad:
+                        got = ("EXC", "ParentNotAnObject", type(bad[0][1]).__name__)
+                    else:
+                        # compared as lists of labels below: order by outer then parent
+                        key = lambda r: (world["E"].index(r[0]), world["P"].index(r[1]))     # noqa: E731
+                        got = [f"{world['E'].index(a)}/{world['P'].index(b)}" for a, b in sorted(got, key=key)]
+                exp = [f"{world['E'].index(a)}/{world['P'].index(b)}" for a, b in exp]
+                return got, exp, len(world["E"]) * max(1, len(world["P"]))
+        elif k in IKINDS:
             exp = [o for o in world["E"] if (o.p in combined) != neg]
         else:
             exp = [o for o in world["E"] if (any(o is c for c in combined)) != neg]
@@ -216,6 +247,11 @@ def run_case(case, inst):
             if d is not None:
                 res.update(ok=False, sig=f"value:{d}", obs=[labels(list(val))] if d != "not-a-list" else repr(val),
                            exp=[labels(exp)])
+    elif k == "iin_selx":
+        res["nontrivial"] = 0 < len(exp) < total
+        if got != exp:
+            d = f"exc:{got[1]}" if is_exc(got) else ("missing" if set(exp) - set(got) else ("extra" if set(got) - set(exp) else "count"))
+            res.update(ok=False, sig=f"{k}:{d}", obs=got, exp=exp)
     else:
         res["nontrivial"] = 0 < len(exp) < total
         d = diff_lists(got, exp, ordered=True)
